@@ -1,5 +1,771 @@
-From Coq Require Import ZArith List Bool Lia.
+(* Proofs for C10 (model: PW.model.QueryForm).
+   1. UTF-8: decode (encode s) = s for every text of Unicode scalar values,
+      one arithmetic case per length class (lia + Euclidean division).
+   2. Percent/plus codec: every legal encoding (relation [qs_of]) of a pair
+      list is parsed back by parse_qsl; quote_plus/urlencode is one such.
+   3. strip / Args / form, grouping (parse_qs), scalar/list collapse, key
+      order, accessor trios, body read plan. *)
+From Coq Require Import ZArith List Bool Lia String.
 Require Import PW.lib.Val PW.lib.ValFacts PW.model.QueryForm.
 Import ListNotations.
 Open Scope Z_scope.
-Lemma placeholder : parse_qsl true [] = []. Proof. reflexivity. Qed.
+
+Ltac Zify.zify_post_hook ::= Z.to_euclidean_division_equations.
+
+(* decide every integer comparison in the goal by lia *)
+Ltac ztest :=
+  repeat match goal with
+  | |- context [?a <? ?b] =>
+      first [ replace (a <? b) with true by (symmetry; apply Z.ltb_lt; lia)
+            | replace (a <? b) with false by (symmetry; apply Z.ltb_ge; lia) ]
+  | |- context [?a <=? ?b] =>
+      first [ replace (a <=? b) with true by (symmetry; apply Z.leb_le; lia)
+            | replace (a <=? b) with false by (symmetry; apply Z.leb_gt; lia) ]
+  | |- context [?a =? ?b] =>
+      first [ replace (a =? b) with true by (symmetry; apply Z.eqb_eq; lia)
+            | replace (a =? b) with false by (symmetry; apply Z.eqb_neq; lia) ]
+  end.
+
+(* ------------------------------------------------------------- UTF-8 *)
+Lemma dec1 b r : b < 128 -> utf8_dec (b :: r) = b :: utf8_dec r.
+Proof. intros H. cbn [utf8_dec]. ztest. reflexivity. Qed.
+
+Lemma dec2 b0 b1 r :
+  194 <= b0 < 224 -> 128 <= b1 < 192 ->
+  utf8_dec (b0 :: b1 :: r) = ((b0 - 192) * 64 + (b1 - 128)) :: utf8_dec r.
+Proof.
+  intros H0 H1. cbn [utf8_dec]. unfold is_cont. ztest. reflexivity.
+Qed.
+
+Lemma dec3 b0 b1 b2 r :
+  224 <= b0 < 240 -> 128 <= b1 < 192 -> 128 <= b2 < 192 ->
+  (b0 = 224 -> 160 <= b1) -> (b0 = 237 -> b1 < 160) ->
+  utf8_dec (b0 :: b1 :: b2 :: r) =
+  ((b0 - 224) * 4096 + (b1 - 128) * 64 + (b2 - 128)) :: utf8_dec r.
+Proof.
+  intros H0 H1 H2 Ha Hb. cbn [utf8_dec].
+  replace (ok3 b0 b1) with true.
+  - unfold is_cont. ztest. reflexivity.
+  - symmetry. unfold ok3, is_cont.
+    destruct (Z.eq_dec b0 224) as [E|E]; [specialize (Ha E)|];
+    (destruct (Z.eq_dec b0 237) as [E'|E']; [specialize (Hb E')|]);
+    try (exfalso; lia); ztest; reflexivity.
+Qed.
+
+Lemma dec4 b0 b1 b2 b3 r :
+  240 <= b0 < 245 -> 128 <= b1 < 192 -> 128 <= b2 < 192 -> 128 <= b3 < 192 ->
+  (b0 = 240 -> 144 <= b1) -> (b0 = 244 -> b1 < 144) ->
+  utf8_dec (b0 :: b1 :: b2 :: b3 :: r) =
+  ((b0 - 240) * 262144 + (b1 - 128) * 4096 + (b2 - 128) * 64 + (b3 - 128))
+    :: utf8_dec r.
+Proof.
+  intros H0 H1 H2 H3 Ha Hb. cbn [utf8_dec].
+  replace (ok4 b0 b1) with true.
+  - unfold is_cont. ztest. reflexivity.
+  - symmetry. unfold ok4, is_cont.
+    destruct (Z.eq_dec b0 240) as [E|E]; [specialize (Ha E)|];
+    (destruct (Z.eq_dec b0 244) as [E'|E']; [specialize (Hb E')|]);
+    try (exfalso; lia); ztest; reflexivity.
+Qed.
+
+Lemma utf8_cp_roundtrip c r :
+  valid_scalar c -> utf8_dec (utf8_enc_cp c ++ r) = c :: utf8_dec r.
+Proof.
+  intros Hv. unfold valid_scalar in Hv. unfold utf8_enc_cp.
+  destruct (c <? 128) eqn:E1; [apply Z.ltb_lt in E1|apply Z.ltb_ge in E1].
+  { cbn [app]. apply dec1. lia. }
+  destruct (c <? 2048) eqn:E2; [apply Z.ltb_lt in E2|apply Z.ltb_ge in E2].
+  { cbn [app]. rewrite dec2 by lia. f_equal. lia. }
+  destruct (c <? 65536) eqn:E3; [apply Z.ltb_lt in E3|apply Z.ltb_ge in E3].
+  { cbn [app]. rewrite dec3 by lia. f_equal. lia. }
+  cbn [app]. rewrite dec4 by lia. f_equal. lia.
+Qed.
+
+Theorem utf8_roundtrip s : valid_scalar_text s -> utf8_dec (utf8_enc s) = s.
+Proof.
+  unfold valid_scalar_text, utf8_enc. induction 1 as [|c s Hc Hs IH].
+  - reflexivity.
+  - cbn [flat_map]. rewrite utf8_cp_roundtrip by assumption. f_equal. exact IH.
+Qed.
+
+(* ------------------------------------------------------ boolean helpers *)
+Ltac b2z :=
+  repeat match goal with
+  | H : _ && _ = true |- _ => apply andb_true_iff in H; destruct H
+  | H : _ || _ = true |- _ => apply orb_true_iff in H; destruct H
+  | H : _ && _ = false |- _ => apply andb_false_iff in H; destruct H
+  | H : _ || _ = false |- _ => apply orb_false_iff in H; destruct H
+  | H : negb _ = true |- _ => apply negb_true_iff in H
+  | H : negb _ = false |- _ => apply negb_false_iff in H
+  | H : (_ <=? _) = true |- _ => apply Z.leb_le in H
+  | H : (_ <? _) = true |- _ => apply Z.ltb_lt in H
+  | H : (_ =? _) = true |- _ => apply Z.eqb_eq in H
+  | H : (_ <=? _) = false |- _ => apply Z.leb_gt in H
+  | H : (_ <? _) = false |- _ => apply Z.ltb_ge in H
+  | H : (_ =? _) = false |- _ => apply Z.eqb_neq in H
+  end.
+
+(* ---------------------------------------------------------- hex digits *)
+Lemma hexval_some h a :
+  hexval h = Some a ->
+  (48 <= h <= 57 \/ 65 <= h <= 70 \/ 97 <= h <= 102) /\ 0 <= a < 16.
+Proof.
+  unfold hexval.
+  destruct ((48 <=? h) && (h <=? 57)) eqn:E1.
+  { intros E; injection E as <-. b2z. lia. }
+  destruct ((65 <=? h) && (h <=? 70)) eqn:E2.
+  { intros E; injection E as <-. b2z; lia. }
+  destruct ((97 <=? h) && (h <=? 102)) eqn:E3.
+  { intros E; injection E as <-. b2z; lia. }
+  discriminate.
+Qed.
+
+Lemma hexval_hexdig n : 0 <= n < 16 -> hexval (hexdig n) = Some n.
+Proof.
+  intros H. unfold hexdig. destruct (n <? 10) eqn:E; b2z; unfold hexval.
+  - ztest. cbn [andb]. f_equal. lia.
+  - ztest. cbn [andb]. f_equal. lia.
+Qed.
+
+(* characters that may occur inside an encoded key or value *)
+Definition nospace (c : Z) : Prop := is_space c = false.
+
+Lemma vis_nospace c : 33 <= c < 127 -> nospace c.
+Proof. intros H. unfold nospace, is_space. ztest. reflexivity. Qed.
+
+Lemma enc_chars t bs :
+  enc_of t bs ->
+  Forall (fun c => 33 <= c < 127 /\ c <> 38 /\ c <> 61) t.
+Proof.
+  induction 1 as [|b t bs Hb _ IH| t bs _ IH | h l b t bs Hh Hl _ IH].
+  - constructor.
+  - constructor; [|exact IH]. unfold lit_ok in Hb. b2z. lia.
+  - constructor; [lia|exact IH].
+  - apply hexval_some in Hh. apply hexval_some in Hl.
+    repeat (constructor; [lia|]). exact IH.
+Qed.
+
+Lemma enc_nil t bs : enc_of t bs -> is_nil t = is_nil bs.
+Proof. destruct 1; reflexivity. Qed.
+
+(* percent-decoding undoes every legal encoding *)
+Lemma unq_enc t bs : enc_of t bs -> unq_bytes (plus2sp t) = bs.
+Proof.
+  induction 1 as [|b t bs Hb _ IH| t bs _ IH | h l b t bs Hh Hl _ IH].
+  - reflexivity.
+  - unfold lit_ok in Hb. b2z. unfold plus2sp in *. cbn [map unq_bytes].
+    ztest. cbn [unq_bytes]. ztest. rewrite IH. reflexivity.
+  - unfold plus2sp in *. cbn [map]. ztest. cbn [unq_bytes]. ztest.
+    rewrite IH. reflexivity.
+  - pose proof (hexval_some _ _ Hh) as [Rh _].
+    pose proof (hexval_some _ _ Hl) as [Rl _].
+    unfold plus2sp in *. cbn [map]. ztest. cbn [unq_bytes]. ztest.
+    rewrite Hh, Hl, IH. f_equal. lia.
+Qed.
+
+Lemma plus2sp_ascii t :
+  Forall (fun c => 33 <= c < 127 /\ c <> 38 /\ c <> 61) t ->
+  Forall (fun c => c < 128) (plus2sp t).
+Proof.
+  induction 1 as [|c t Hc _ IH]; [constructor|].
+  unfold plus2sp in *. cbn [map]. constructor; [|exact IH].
+  destruct (c =? 43); lia.
+Qed.
+
+Lemma utf8_dec_ascii s : Forall (fun c => c < 128) s -> utf8_dec s = s.
+Proof.
+  induction 1 as [|c s Hc _ IH]; [reflexivity|].
+  rewrite dec1 by assumption. rewrite IH. reflexivity.
+Qed.
+
+Lemma unq_bytes_nopct s : has_pct s = false -> unq_bytes s = s.
+Proof.
+  unfold has_pct. induction s as [|c s IH]; [reflexivity|].
+  cbn [existsb unq_bytes]. intros H. apply orb_false_iff in H as [H1 H2].
+  rewrite Z.eqb_sym in H1. rewrite H1, IH by assumption. reflexivity.
+Qed.
+
+Lemma unq_runs_ascii s : forall acc,
+  Forall (fun c => c < 128) s ->
+  unq_runs s acc = utf8_dec (unq_bytes (rev acc ++ s)).
+Proof.
+  induction s as [|c s IH]; intros acc H.
+  - cbn [unq_runs]. unfold flush_run. rewrite app_nil_r. reflexivity.
+  - inversion H as [|? ? Hc Hs]; subst. cbn [unq_runs].
+    replace (c <? 128) with true by (symmetry; apply Z.ltb_lt; assumption).
+    rewrite IH by assumption. cbn [rev]. rewrite <- app_assoc. reflexivity.
+Qed.
+
+Lemma unquote_ascii s :
+  Forall (fun c => c < 128) s -> unquote s = utf8_dec (unq_bytes s).
+Proof.
+  intros H. unfold unquote. destruct (has_pct s) eqn:E.
+  - rewrite unq_runs_ascii by assumption. reflexivity.
+  - rewrite unq_bytes_nopct by assumption.
+    rewrite utf8_dec_ascii by assumption. reflexivity.
+Qed.
+
+(* a legally encoded text decodes to the text that was encoded *)
+Lemma decode_enc t x :
+  enc_of t (utf8_enc x) -> valid_scalar_text x -> unquote (plus2sp t) = x.
+Proof.
+  intros He Hv. rewrite unquote_ascii.
+  - rewrite (unq_enc _ _ He). apply utf8_roundtrip. exact Hv.
+  - apply plus2sp_ascii. eapply enc_chars. exact He.
+Qed.
+
+(* ------------------------------------------------------------ splitting *)
+Lemma split_on_none sep a :
+  Forall (fun c => c <> sep) a -> split_on sep a = [a].
+Proof.
+  induction 1 as [|c a Hc _ IH]; [reflexivity|].
+  cbn [split_on]. ztest. rewrite IH. reflexivity.
+Qed.
+
+Lemma split_on_app sep a b :
+  Forall (fun c => c <> sep) a ->
+  split_on sep (a ++ sep :: b) = a :: split_on sep b.
+Proof.
+  induction 1 as [|c a Hc _ IH].
+  - cbn [app split_on]. rewrite Z.eqb_refl. reflexivity.
+  - cbn [app split_on]. ztest. rewrite IH. reflexivity.
+Qed.
+
+Lemma split1_app sep a b :
+  Forall (fun c => c <> sep) a -> split1 sep (a ++ sep :: b) = (a, Some b).
+Proof.
+  induction 1 as [|c a Hc _ IH].
+  - cbn [app split1]. rewrite Z.eqb_refl. reflexivity.
+  - cbn [app split1]. ztest. rewrite IH. reflexivity.
+Qed.
+
+Lemma utf8_enc_nil v : is_nil (utf8_enc v) = is_nil v.
+Proof.
+  destruct v as [|c v]; [reflexivity|].
+  unfold utf8_enc. cbn [flat_map]. unfold utf8_enc_cp.
+  destruct (c <? 128); [reflexivity|]. destruct (c <? 2048); [reflexivity|].
+  destruct (c <? 65536); reflexivity.
+Qed.
+
+Definition parse_all keep q := flat_map (parse_piece keep) (split_on 38 q).
+
+Lemma parse_qsl_all keep q : parse_qsl keep q = parse_all keep q.
+Proof.
+  unfold parse_qsl, parse_all. destruct q; [|reflexivity].
+  destruct keep; reflexivity.
+Qed.
+
+Lemma piece_ok keep ek ev k v :
+  enc_of ek (utf8_enc k) -> enc_of ev (utf8_enc v) ->
+  valid_scalar_text k -> valid_scalar_text v ->
+  parse_piece keep (ek ++ 61 :: ev) = sel keep [(k, v)].
+Proof.
+  intros Hk Hv Vk Vv. unfold parse_piece.
+  replace (is_nil (ek ++ 61 :: ev)) with false by (destruct ek; reflexivity).
+  rewrite split1_app.
+  2:{ eapply Forall_impl; [|eapply enc_chars; exact Hk]. cbn. intros; lia. }
+  rewrite (enc_nil _ _ Hv), utf8_enc_nil.
+  rewrite (decode_enc _ _ Hk Vk), (decode_enc _ _ Hv Vv).
+  unfold sel, nonblank. cbn [filter snd].
+  destruct keep, (is_nil v); reflexivity.
+Qed.
+
+Lemma piece_chars ek ev k v :
+  enc_of ek k -> enc_of ev v ->
+  Forall (fun c => c <> 38) (ek ++ 61 :: ev).
+Proof.
+  intros Hk Hv. apply Forall_app. split.
+  - eapply Forall_impl; [|eapply enc_chars; exact Hk]. cbn. intros; lia.
+  - constructor; [lia|].
+    eapply Forall_impl; [|eapply enc_chars; exact Hv]. cbn. intros; lia.
+Qed.
+
+(* every legal encoding of the pairs is parsed back to the pairs *)
+Theorem qsl_decodes keep q ps :
+  qs_of q ps -> valid_pairs ps -> parse_qsl keep q = sel keep ps.
+Proof.
+  intros Hq. rewrite parse_qsl_all. unfold parse_all.
+  induction Hq as [|ek ev k v Hk Hv|q ps _ IH|ek ev k v q ps Hk Hv _ IH];
+    intros Hvalid.
+  - destruct keep; reflexivity.
+  - inversion Hvalid as [|? ? [Vk Vv] _]; subst. cbn [fst snd] in *.
+    rewrite split_on_none by (eapply piece_chars; eassumption).
+    cbn [flat_map]. rewrite app_nil_r. apply piece_ok; assumption.
+  - cbn [split_on]. rewrite Z.eqb_refl. cbn [flat_map].
+    replace (parse_piece keep []) with (@nil (list Z * list Z))
+      by (destruct keep; reflexivity).
+    apply IH. exact Hvalid.
+  - inversion Hvalid as [|? ? [Vk Vv] Hrest]; subst. cbn [fst snd] in *.
+    replace (ek ++ 61 :: ev ++ 38 :: q) with ((ek ++ 61 :: ev) ++ 38 :: q)
+      by (rewrite <- app_assoc; reflexivity).
+    rewrite split_on_app by (eapply piece_chars; eassumption).
+    cbn [flat_map]. rewrite IH by assumption.
+    rewrite (piece_ok keep ek ev k v) by assumption.
+    unfold sel. destruct keep; [reflexivity|].
+    cbn [filter]. destruct (nonblank (k, v)); reflexivity.
+Qed.
+
+(* ------------------------------------------ the quote_plus / urlencode spec *)
+Lemma unreserved_lit b : unreserved b = true -> lit_ok b = true.
+Proof.
+  unfold unreserved. intros H. b2z; unfold lit_ok; ztest; reflexivity.
+Qed.
+
+Lemma quote_bytes_enc bs :
+  Forall (fun b => 0 <= b < 256) bs -> enc_of (flat_map quote_byte bs) bs.
+Proof.
+  induction 1 as [|b bs Hb _ IH]; [constructor|].
+  cbn [flat_map]. unfold quote_byte.
+  destruct (unreserved b) eqn:E1.
+  { cbn [app]. apply E_lit; [apply unreserved_lit; exact E1|exact IH]. }
+  destruct (b =? 32) eqn:E2.
+  { b2z. subst b. cbn [app]. apply E_plus. exact IH. }
+  cbn [app]. apply E_pct; [apply hexval_hexdig; lia|apply hexval_hexdig; lia|
+                           exact IH].
+Qed.
+
+Lemma utf8_enc_bytes s :
+  valid_scalar_text s -> Forall (fun b => 0 <= b < 256) (utf8_enc s).
+Proof.
+  unfold valid_scalar_text, utf8_enc. induction 1 as [|c s Hc _ IH].
+  - constructor.
+  - cbn [flat_map]. apply Forall_app. split; [|exact IH].
+    unfold valid_scalar in Hc. unfold utf8_enc_cp.
+    destruct (c <? 128) eqn:E1; b2z.
+    { repeat constructor; lia. }
+    destruct (c <? 2048) eqn:E2; b2z.
+    { repeat constructor; lia. }
+    destruct (c <? 65536) eqn:E3; b2z; repeat constructor; lia.
+Qed.
+
+Lemma quote_plus_enc s :
+  valid_scalar_text s -> enc_of (quote_plus s) (utf8_enc s).
+Proof. intros H. apply quote_bytes_enc, utf8_enc_bytes, H. Qed.
+
+Lemma encode_qs_of ps : valid_pairs ps -> qs_of (encode ps) ps.
+Proof.
+  induction 1 as [|[k v] ps [Vk Vv] Hps IH]; [constructor|].
+  cbn [fst snd] in *. cbn [encode]. destruct ps as [|p ps'].
+  - apply Q_one; apply quote_plus_enc; assumption.
+  - apply Q_cons; try (apply quote_plus_enc; assumption). exact IH.
+Qed.
+
+Theorem qsl_roundtrip ps keep :
+  valid_pairs ps -> parse_qsl keep (encode ps) = sel keep ps.
+Proof. intros H. apply qsl_decodes; [apply encode_qs_of|]; exact H. Qed.
+
+(* ------------------------------------------------------- strip / Args *)
+Lemma enc_nospace t bs : enc_of t bs -> Forall nospace t.
+Proof.
+  intros H. eapply Forall_impl; [|eapply enc_chars; exact H].
+  cbn. intros c Hc. apply vis_nospace. lia.
+Qed.
+
+Lemma qs_nospace q ps : qs_of q ps -> Forall nospace q.
+Proof.
+  induction 1 as [|ek ev k v Hk Hv|q ps _ IH|ek ev k v q ps Hk Hv _ IH].
+  - constructor.
+  - apply Forall_app. split; [eapply enc_nospace; exact Hk|].
+    constructor; [reflexivity|eapply enc_nospace; exact Hv].
+  - constructor; [reflexivity|exact IH].
+  - apply Forall_app. split; [eapply enc_nospace; exact Hk|].
+    constructor; [reflexivity|]. apply Forall_app. split.
+    + eapply enc_nospace; exact Hv.
+    + constructor; [reflexivity|exact IH].
+Qed.
+
+Lemma lstrip_id s : Forall nospace s -> lstrip s = s.
+Proof. destruct 1 as [|c s Hc _]; cbn [lstrip]; [|rewrite Hc]; reflexivity. Qed.
+
+Lemma strip_id s : Forall nospace s -> strip s = s.
+Proof.
+  intros H. unfold strip. rewrite (lstrip_id s H).
+  rewrite lstrip_id by (apply Forall_rev; exact H). apply rev_involutive.
+Qed.
+
+(* the query string of a request: what Args holds *)
+Theorem args_roundtrip keep q ps :
+  qs_of q ps -> valid_pairs ps -> args_of keep q = args_dict (sel keep ps).
+Proof.
+  intros Hq Hv. unfold args_of. rewrite (strip_id q (qs_nospace _ _ Hq)).
+  rewrite <- (qsl_decodes keep q ps Hq Hv).
+  destruct q; [destruct keep|]; reflexivity.
+Qed.
+
+(* the urlencoded body: what the form holds *)
+Theorem form_roundtrip keep q ps :
+  qs_of q ps -> valid_pairs ps -> form_fields keep q = sel keep ps.
+Proof.
+  intros Hq Hv. unfold form_fields. rewrite utf8_dec_ascii.
+  - apply qsl_decodes; assumption.
+  - clear Hv. induction Hq as [|ek ev k v Hk Hv|q ps _ IH|ek ev k v q ps Hk Hv _ IH].
+    + constructor.
+    + apply Forall_app. split.
+      * eapply Forall_impl; [|eapply enc_chars; exact Hk]. cbn; intros; lia.
+      * constructor; [lia|].
+        eapply Forall_impl; [|eapply enc_chars; exact Hv]. cbn; intros; lia.
+    + constructor; [lia|exact IH].
+    + apply Forall_app. split.
+      * eapply Forall_impl; [|eapply enc_chars; exact Hk]. cbn; intros; lia.
+      * constructor; [lia|]. apply Forall_app. split.
+        -- eapply Forall_impl; [|eapply enc_chars; exact Hv]. cbn; intros; lia.
+        -- constructor; [lia|exact IH].
+Qed.
+
+(* ------------------------------------------------------------- grouping *)
+Definition lookupl (k : K) (d : list (K * list K)) : list K :=
+  match lookup k d with Some l => l | None => [] end.
+Definition add_pair (d : list (K * list K)) (kv : K * K) :=
+  dict_add d (fst kv) (snd kv).
+
+Lemma lookup_add_same d k v :
+  lookupl k (dict_add d k v) = lookupl k d ++ [v].
+Proof.
+  unfold lookupl. induction d as [|[k' vs] d IH].
+  - cbn [dict_add lookup]. rewrite lz_eqb_refl. reflexivity.
+  - cbn [dict_add lookup]. destruct (lz_eqb k' k) eqn:E.
+    + cbn [lookup]. rewrite E. reflexivity.
+    + cbn [lookup]. rewrite E. exact IH.
+Qed.
+
+Lemma lookup_add_other d kn k v :
+  lz_eqb kn k = false -> lookup k (dict_add d kn v) = lookup k d.
+Proof.
+  intros Hn. induction d as [|[k' vs] d IH].
+  - cbn [dict_add lookup]. rewrite Hn. reflexivity.
+  - cbn [dict_add lookup]. destruct (lz_eqb k' kn) eqn:E.
+    + apply lz_eqb_eq in E. subst k'. cbn [lookup]. rewrite Hn. reflexivity.
+    + cbn [lookup]. destruct (lz_eqb k' k); [reflexivity|exact IH].
+Qed.
+
+Lemma fold_lookupl k ps : forall d,
+  lookupl k (fold_left add_pair ps d) = lookupl k d ++ vals k ps.
+Proof.
+  induction ps as [|[kn v] ps IH]; intros d.
+  - unfold vals. cbn. rewrite app_nil_r. reflexivity.
+  - cbn [fold_left]. rewrite IH. unfold add_pair, vals. cbn [fst snd filter].
+    destruct (lz_eqb kn k) eqn:E.
+    + apply lz_eqb_eq in E. subst kn. rewrite lookup_add_same.
+      rewrite <- app_assoc. reflexivity.
+    + unfold lookupl. rewrite lookup_add_other by exact E. reflexivity.
+Qed.
+
+Definition nonempty_lists (d : list (K * list K)) : Prop :=
+  Forall (fun kv => snd kv <> []) d.
+
+Lemma dict_add_nonempty d k v : nonempty_lists d -> nonempty_lists (dict_add d k v).
+Proof.
+  unfold nonempty_lists. induction 1 as [|[k' vs] d Hkv Hd IH].
+  - cbn [dict_add]. repeat constructor. discriminate.
+  - cbn [dict_add]. destruct (lz_eqb k' k).
+    + constructor; [|exact Hd]. cbn [snd]. destruct vs; discriminate.
+    + constructor; assumption.
+Qed.
+
+Lemma fold_nonempty ps : forall d,
+  nonempty_lists d -> nonempty_lists (fold_left add_pair ps d).
+Proof.
+  induction ps as [|p ps IH]; intros d H; [exact H|].
+  cbn [fold_left]. apply IH. apply dict_add_nonempty. exact H.
+Qed.
+
+Lemma lookup_nonempty k d l :
+  nonempty_lists d -> lookup k d = Some l -> l <> [].
+Proof.
+  unfold nonempty_lists. induction 1 as [|[k' vs] d Hkv _ IH]; [discriminate|].
+  cbn [lookup]. destruct (lz_eqb k' k); [|exact IH].
+  intros E. injection E as <-. exact Hkv.
+Qed.
+
+Lemma group_lookup k ps :
+  lookup k (group ps) =
+  match vals k ps with [] => None | vs => Some vs end.
+Proof.
+  pose proof (fold_lookupl k ps []) as H.
+  pose proof (fold_nonempty ps [] (Forall_nil _)) as Hn.
+  change (fold_left add_pair ps []) with (group ps) in *.
+  unfold lookupl in H. cbn [lookup app] in H.
+  destruct (lookup k (group ps)) as [l|] eqn:E.
+  - pose proof (lookup_nonempty _ _ _ Hn E) as Hl. rewrite <- H.
+    destruct l; [contradiction|reflexivity].
+  - rewrite <- H. reflexivity.
+Qed.
+
+Lemma lookup_map {A B} (f : A -> B) k (d : list (K * A)) :
+  lookup k (map (fun kv => (fst kv, f (snd kv))) d) = option_map f (lookup k d).
+Proof.
+  induction d as [|[k' x] d IH]; [reflexivity|].
+  cbn [map lookup fst snd]. destruct (lz_eqb k' k); [reflexivity|exact IH].
+Qed.
+
+(* single keys are scalars, repeated keys lists in order, others absent *)
+Theorem args_collapse ps k :
+  lookup k (args_dict ps) =
+  match vals k ps with
+  | [] => None
+  | [v] => Some (AS v)
+  | vs => Some (AL vs)
+  end.
+Proof.
+  unfold args_dict. rewrite lookup_map, group_lookup.
+  destruct (vals k ps) as [|v [|v2 l]]; reflexivity.
+Qed.
+
+(* keys appear in the order of their first occurrence *)
+Lemma keys_dict_add d k v :
+  map fst (dict_add d k v) =
+  if existsb (fun k' => lz_eqb k' k) (map fst d) then map fst d
+  else map fst d ++ [k].
+Proof.
+  induction d as [|[k' vs] d IH]; [reflexivity|].
+  cbn [dict_add map fst existsb]. destruct (lz_eqb k' k); [reflexivity|].
+  cbn [map fst orb]. rewrite IH.
+  destruct (existsb (fun k'0 => lz_eqb k'0 k) (map fst d)); reflexivity.
+Qed.
+
+Lemma fold_keys ps : forall d,
+  map fst (fold_left add_pair ps d) =
+  map fst d ++ first_occ (map fst d) (map fst ps).
+Proof.
+  induction ps as [|[kn v] ps IH]; intros d.
+  - cbn. rewrite app_nil_r. reflexivity.
+  - cbn [fold_left map fst first_occ]. rewrite IH. unfold add_pair.
+    cbn [fst snd]. rewrite keys_dict_add.
+    destruct (existsb (fun k' => lz_eqb k' kn) (map fst d)); [reflexivity|].
+    rewrite <- app_assoc. reflexivity.
+Qed.
+
+Theorem args_key_order ps :
+  map fst (args_dict ps) = first_occ [] (map fst ps).
+Proof.
+  unfold args_dict. rewrite map_map. cbn [fst].
+  change (map (fun x => fst x) (group ps)) with (map fst (group ps)).
+  unfold group. change (fun d kv => dict_add d (fst kv) (snd kv)) with add_pair.
+  rewrite fold_keys. reflexivity.
+Qed.
+
+(* ------------------------------------------------------------ accessors *)
+Theorem args_accessors ps k :
+  a_getlist (args_dict ps) k = TList (map Some (vals k ps)) /\
+  a_getfirst (args_dict ps) k =
+    match vals k ps with [] => TNone | v :: _ => TStr v end /\
+  a_getvalue (args_dict ps) k =
+    match vals k ps with
+    | [] => TNone | [v] => TStr v | vs => TList (map Some vs)
+    end.
+Proof.
+  unfold a_getlist, a_getfirst, a_getvalue. rewrite args_collapse.
+  destruct (vals k ps) as [|v [|v2 l]]; repeat split; reflexivity.
+Qed.
+
+Lemma existsb_filter {A} (p : A -> bool) l :
+  existsb p l = negb (is_nil (filter p l)).
+Proof.
+  induction l as [|x l IH]; [reflexivity|].
+  cbn [existsb filter]. destruct (p x); [reflexivity|exact IH].
+Qed.
+
+Lemma f_contains_found fs k : f_contains fs k = negb (is_nil (f_found fs k)).
+Proof.
+  unfold f_contains, f_found. destruct fs; [reflexivity|].
+  cbn [is_nil]. apply existsb_filter.
+Qed.
+
+Lemma f_getitem_found fs k :
+  f_getitem fs k =
+  match f_found fs k with
+  | [] => None | [f] => Some (FOne f) | l => Some (FMany l)
+  end.
+Proof. unfold f_getitem. destruct fs; reflexivity. Qed.
+
+Lemma fval_nonblank v : v <> [] -> fval v = Some v.
+Proof. destruct v; [contradiction|reflexivity]. Qed.
+
+Lemma map_fval l :
+  Forall (fun f : K * K => snd f <> []) l ->
+  map (fun f => fval (snd f)) l = map Some (map snd l).
+Proof.
+  induction 1 as [|f l Hf _ IH]; [reflexivity|].
+  cbn [map]. rewrite fval_nonblank by exact Hf. rewrite IH. reflexivity.
+Qed.
+
+(* FieldStorage: for non-blank values the trio agrees with the fields *)
+Theorem form_accessors fs k :
+  Forall (fun f => snd f <> []) fs ->
+  f_getlist fs k = TList (map Some (vals k fs)) /\
+  f_getfirst fs k =
+    match vals k fs with [] => TNone | v :: _ => TStr v end /\
+  f_getvalue fs k =
+    match vals k fs with
+    | [] => TNone | [v] => TStr v | vs => TList (map Some vs)
+    end.
+Proof.
+  intros Hnb.
+  assert (Hf : Forall (fun f : K * K => snd f <> []) (f_found fs k)).
+  { unfold f_found. apply Forall_forall. intros f Hin.
+    apply filter_In in Hin as [Hin _].
+    rewrite Forall_forall in Hnb. apply Hnb. exact Hin. }
+  unfold f_getlist, f_getfirst, f_getvalue.
+  rewrite f_contains_found, f_getitem_found.
+  unfold vals. fold (f_found fs k).
+  destruct (f_found fs k) as [|f [|f2 l]] eqn:E.
+  - repeat split; reflexivity.
+  - inversion Hf as [|? ? H1 _]; subst. cbn [is_nil negb map].
+    rewrite fval_nonblank by exact H1. repeat split; reflexivity.
+  - cbn [is_nil negb]. rewrite map_fval by exact Hf.
+    inversion Hf as [|? ? H1 _]; subst.
+    rewrite fval_nonblank by exact H1. repeat split; reflexivity.
+Qed.
+
+(* with a kept blank value the full statement fails: known from the code,
+   FieldStorage.value turns '' into None *)
+Theorem form_accessors_blank_refuted :
+  exists fs k, f_getlist fs k <> TList (map Some (vals k fs)) /\
+               f_getvalue fs k = TNone /\ vals k fs = [[]].
+Proof.
+  exists [([97], [])], [97]. split; [|split]; vm_compute; [discriminate| |];
+    reflexivity.
+Qed.
+
+Theorem empty_accessors k :
+  e_getvalue k = TNone /\ e_getfirst k = TNone /\ e_getlist k = TList [].
+Proof. repeat split; reflexivity. Qed.
+
+Theorem jsondict_accessors d k :
+  match lookup k d with
+  | None => jd_getvalue d k = JRNone /\ jd_getfirst d k = JRNone /\
+            jd_getlist d k = JRVal (JArr [])
+  | Some (JArr l) =>
+      jd_getvalue d k = JRVal (JArr l) /\ jd_getlist d k = JRVal (JArr l) /\
+      (forall x r, l = x :: r -> jd_getfirst d k = JRVal x)
+  | Some j => jd_getvalue d k = JRVal j /\ jd_getfirst d k = JRVal j /\
+              jd_getlist d k = JRVal (JArr [j])
+  end.
+Proof.
+  unfold jd_getvalue, jd_getfirst, jd_getlist.
+  destruct (lookup k d) as [[]|]; repeat split; try reflexivity.
+  intros x r ->. reflexivity.
+Qed.
+
+Theorem jsondict_getfirst_empty_refuted :
+  exists d k, lookup k d = Some (JArr []) /\
+              jd_getlist d k = JRVal (JArr []) /\
+              jd_getfirst d k = JRRaise "IndexError"%string.
+Proof. exists [([107], JArr [])], [107]. repeat split; reflexivity. Qed.
+
+Theorem jsonlist_accessors l :
+  jl_getlist l = JRVal (JArr l) /\
+  jl_getvalue l = match l with [] => JRNone | x :: _ => JRVal x end /\
+  jl_getfirst l = jl_getvalue l.
+Proof. repeat split; reflexivity. Qed.
+
+Theorem bad_json_400 decode loads raw charset :
+  (decode charset raw = None \/
+   exists t, decode charset raw = Some t /\ loads t = None) ->
+  parse_json_request decode loads raw charset = J400.
+Proof.
+  unfold parse_json_request. intros [H|[t [H1 H2]]].
+  - rewrite H. reflexivity.
+  - rewrite H1, H2. reflexivity.
+Qed.
+
+(* ------------------------------------------------------------ body plan *)
+Theorem body_budget c :
+  (http09 c = false \/ 0 <= clen c) -> raw_lines c = false ->
+  exists n, plan_cost (body_plan c) = Some n /\ n <= Z.max 0 (clen c).
+Proof.
+  intros Hproto Hraw. unfold body_plan.
+  destruct (buffered c) eqn:B.
+  { unfold buffered in B. b2z. cbn [plan_cost rd_cost]. ztest.
+    eexists. split; [reflexivity|lia]. }
+  destruct (json_branch c) eqn:J.
+  { unfold json_branch, body_expected, is_body_request in J. b2z;
+      (destruct Hproto as [Hp|Hp]; [try congruence|]);
+      cbn [plan_cost rd_cost]; ztest; eexists; (split; [reflexivity|lia]). }
+  destruct (form_branch c) eqn:F.
+  2:{ exists 0. split; [reflexivity|lia]. }
+  assert (Hlen : 0 <= clen c).
+  { unfold form_branch, body_expected, is_body_request in F. b2z;
+      destruct Hproto as [Hp|Hp]; try congruence; lia. }
+  unfold raw_lines in Hraw. rewrite B, F in Hraw. cbn [negb andb] in Hraw.
+  unfold form_reads, line_reads. destruct (kind c).
+  - cbn [plan_cost rd_cost]. ztest. eexists. split; [reflexivity|lia].
+  - destruct (cached c); [|discriminate].
+    cbn [plan_cost rd_cost]. ztest. eexists. split; [reflexivity|lia].
+  - replace (0 <=? clen c) with true by (symmetry; apply Z.leb_le; lia).
+    clear Hraw. unfold single_reads, BUFSIZE.
+    destruct (0 <? clen c) eqn:E; [apply Z.ltb_lt in E|apply Z.ltb_ge in E].
+    + cbn [plan_cost rd_cost]. ztest. eexists. split; [reflexivity|lia].
+    + exists 0. split; [reflexivity|lia].
+Qed.
+
+(* the raw-stream line parser is not bounded by the declared length *)
+Theorem raw_lines_unbounded c :
+  raw_lines c = true -> body_plan c = [RLines] /\ plan_cost (body_plan c) = None.
+Proof.
+  unfold raw_lines. intros H.
+  apply andb_true_iff in H as [H Hk]. apply andb_true_iff in H as [H Hc].
+  apply andb_true_iff in H as [Hb Hf]. apply negb_true_iff in Hb, Hc.
+  assert (J : json_branch c = false).
+  { unfold form_branch in Hf.
+    destruct (json_branch c); [cbn in Hf; discriminate|reflexivity]. }
+  unfold body_plan. rewrite Hb, J, Hf. unfold form_reads, line_reads.
+  rewrite Hc. destruct (kind c); [discriminate|split; reflexivity|].
+  apply Z.ltb_lt in Hk.
+  replace (0 <=? clen c) with false by (symmetry; apply Z.leb_gt; lia).
+  split; reflexivity.
+Qed.
+
+Theorem body_budget_refuted :
+  exists c, http09 c = false /\ 0 < clen c /\
+            plan_cost (body_plan c) = None.
+Proof.
+  exists {| auto_data := true; data_size := 60; clen := 61; http09 := false;
+            in_json := false; in_form := true; kind := KMulti;
+            auto_json := true; auto_form := true; cached_size := 0 |}.
+  repeat split; vm_compute; reflexivity.
+Qed.
+
+(* ---------------------------------------------------------- non-vacuity *)
+Example roundtrip_example :
+  let ps := [([233; 32; 107], [97; 38; 98; 61; 99; 37]);
+             ([], []); ([233; 32; 107], [8364; 128512; 43])] in
+  valid_pairs ps /\
+  parse_qsl true (encode ps) = ps /\
+  parse_qsl false (encode ps) = [([233; 32; 107], [97; 38; 98; 61; 99; 37]);
+                                 ([233; 32; 107], [8364; 128512; 43])] /\
+  lookup [233; 32; 107] (args_of true (encode ps)) =
+    Some (AL [[97; 38; 98; 61; 99; 37]; [8364; 128512; 43]]).
+Proof.
+  cbv zeta. split; [|split; [|split]].
+  - unfold valid_pairs, valid_pair, valid_scalar_text, valid_scalar.
+    repeat (constructor; cbn [fst snd]); lia.
+  - vm_compute. reflexivity.
+  - vm_compute. reflexivity.
+  - vm_compute. reflexivity.
+Qed.
+
+Example qs_of_example :
+  (* "a=%c3%A9+b&&c=" : lower/upper hex, '+', an empty piece *)
+  qs_of [97; 61; 37; 99; 51; 37; 65; 57; 43; 98; 38; 38; 99; 61]
+        [([97], [233; 32; 98]); ([99], [])].
+Proof.
+  apply (Q_cons [97] [37; 99; 51; 37; 65; 57; 43; 98] [97] [233; 32; 98]
+                [38; 99; 61] [([99], [])]).
+  - apply E_lit; [reflexivity|constructor].
+  - change (utf8_enc [233; 32; 98]) with [195; 169; 32; 98].
+    apply E_pct; [reflexivity|reflexivity|].
+    apply E_pct; [reflexivity|reflexivity|].
+    apply E_plus. apply E_lit; [reflexivity|constructor].
+  - apply Q_skip. apply (Q_one [99] [] [99] []).
+    + apply E_lit; [reflexivity|constructor].
+    + constructor.
+Qed.
+
+Example budget_example :
+  let c := {| auto_data := false; data_size := 0; clen := 20; http09 := false;
+              in_json := false; in_form := true; kind := KMulti;
+              auto_json := true; auto_form := true; cached_size := 4 |} in
+  (http09 c = false \/ 0 <= clen c) /\ raw_lines c = false /\
+  body_plan c = [RCached 20].
+Proof. cbn. repeat split. left; reflexivity. Qed.
